@@ -36,6 +36,7 @@ def run(chk, repo):
     chk.attempt(check_codec, chk, repo, "C07")
     chk.attempt(naming, chk, op)
     chk.attempt(provenance, chk, op)
+    chk.attempt(serialised_last, chk, op, "C07-G6")
     from .c10 import w3
     chk.rule("C10-W3", "no module-level state / memoisation on the open path: a later open must honour its own records_per_chunk and cache options (C07-G5)", 1)
     chk.attempt(w3, chk, op)
@@ -43,6 +44,50 @@ def run(chk, repo):
 
 
 # ----------------------------------------------------------------------------
+def serialised_last(chk, op, rule):
+    """typestate: the group handed to create_cache is final - nothing stores into it afterwards.  A later store (name,
+    variable, attribute) reaches the caller of this open but not the index file, so a cached open returns another tree"""
+    from ..effects import stores
+    from ..interproc import bind_args
+    chk.rule(rule, "the group written to the cache is not modified after create_cache (the cached tree equals the returned tree)", 1)
+    lib = op.reach
+    sites = [(c, n) for c in op.g.callers(CREATE_CACHE) if c in lib or c == CLI_CREATE for n in op.g.sites[(c, CREATE_CACHE)]]
+    if not sites:
+        raise AnalysisError(f"anchor vanished: no call of {CREATE_CACHE}")
+    for ckey, n in sites:
+        fi = op.g.funcs[ckey]
+        if not isinstance(n, ast.Call) and isinstance(getattr(n, "_parent", None), ast.Call) and n._parent.func is n:
+            n = n._parent
+        if not isinstance(n, ast.Call):
+            raise AnalysisError(f"{op.where(fi)}: create_cache is referenced as a value ({short(n, 40)}); what it serialises is not decided")
+        cs = [x for x in resolve_callees(op.repo, fi, n.func) if x.key == CREATE_CACHE]
+        if not cs:
+            continue
+        b, _ = bind_args(cs[0], n)
+        data = b.get(op.fi(CREATE_CACHE).positional_params[2])
+        if not isinstance(data, ast.Name):
+            chk.ok(rule, op.where(fi), f"{short(n, 60)}: the cached object is an expression, nothing can store into it afterwards")
+            continue
+        later = []
+        for kind, root, target, node in stores(op.repo, fi):
+            if root == data.id and (node.lineno, node.col_offset) > (n.lineno, n.col_offset):
+                # stores in the other branch of a conditional that excludes the call cannot follow it
+                from ..core import parents
+                anc_call = list(parents(n))
+                excl = False
+                for p in parents(node):
+                    if isinstance(p, ast.If) and p in anc_call:
+                        in_body_call = any(any(x is a for a in [n] + anc_call) for x in p.body)
+                        in_body_store = any(any(x is a for a in [node] + list(parents(node))) for x in p.body)
+                        excl = in_body_call != in_body_store
+                        break
+                if not excl:
+                    later.append(short(node, 60))
+        chk.require(not later, rule, op.where(fi), f"nothing stores into `{data.id}` after {short(n, 50)}",
+                    f"`{data.id}` is modified after it was written to the cache ({later[:2]}): the index file holds the group without that change, so a later open that uses the cache "
+                    f"returns a different tree (e.g. an unnamed image group)", key=f"{fi.key}:mutated-after-create_cache", sample={"site": short(n, 60)})
+
+
 def g1_g2(chk, op):
     chk.rule("C07-G1", "every cache lookup on the open path is control-dependent on use_cache", 1)
     chk.rule("C07-G2", "every cache creation on the open path is control-dependent on create_cache", 1)
